@@ -85,12 +85,25 @@ for _r, _g, _t in [(0, 1, "quick"), (1, 1, "quick"), (2, 1, "quick"), (2, 2, "qu
 @obligation("C19", "state", ensures=["O-C19-state.target", "O-C19-state.sensor"], fns=[TA + "TargetAgent.importState", SA + "SensingAgent.importState"], mode="R",
             note="after importState the agent's truth state is exactly the record's ECI state and its clock is (record JD - start JD) * 86400 (exact in reals; in floats within 5e-5 s, see O-C05-scen)")
 def state(vc):
-    if not vc.symbolic:
-        vc.ensure("O-C19-state.target", True)
-        vc.ensure("O-C19-state.sensor", True)
-        return
     eci = vc.vec("eci", 6, -5e4, 5e4)
     jd, jd0 = vc.real("jd", 2450000, 2470000), vc.real("jd0", 2450000, 2470000)
+    if not vc.symbolic:
+        # native replay on the real agent classes (start inside the Earth-orientation table, record up to 30 days later)
+        import datetime
+        from resonaate.physics.time.stardate import JulianDate, ScenarioTime, datetimeToJulianDate
+        from resonaate.agents.target_agent import TargetAgent
+        from resonaate.agents.sensing_agent import SensingAgent
+        start = datetime.datetime(2019, 1, 1) + datetime.timedelta(seconds=int((jd0 - 2450000) * 3))
+        j0 = datetimeToJulianDate(start)
+        j1 = JulianDate(float(j0) + (jd - 2450000) / 20000 * 30)
+        rec = _NS(eci=list(eci), julian_date=float(j1))
+        want_t = (float(j1) - float(j0)) * 86400
+        for name, C in (("target", TargetAgent), ("sensor", SensingAgent)):
+            a = object.__new__(C)
+            a.__dict__.update(julian_date_start=j0, datetime_start=start, _truth_state=None, _time=ScenarioTime(0.0))
+            a.importState(rec)
+            vc.ensure(f"O-C19-state.{name}", bool(np.array_equal(a.eci_state, eci)) and abs(float(a._time) - want_t) < 5e-5)
+        return
     JD = vc.float_class(SD + "JulianDate")
     ST = vc.float_class(SD + "ScenarioTime")
     for mod in (TA, SA):
@@ -184,10 +197,6 @@ from contracts import stepfwd as SF  # noqa: E402
             note="in every step each imported (non-realtime) agent is registered with the importer exactly once and never propagated, each realtime agent is propagated exactly once and never registered; ephemerides are imported once, for the NEW epoch (after the clock tick), before the propagation jobs are joined; without an importer database the step raises")
 def register(vc):
     import itertools
-    if not vc.symbolic:
-        for n in ("O-C19-register.routing", "O-C19-register.import-at-new-epoch", "O-C19-register.no-importer"):
-            vc.ensure(n, True)
-        return
     ids = (1, 2, 10, 11)
     for k in range(len(ids) + 1):
         for non in itertools.combinations(ids, k):
@@ -223,21 +232,17 @@ def register(vc):
             bounded="3 stored observations (two of them from the same sensor position and target: one is a duplicate), 2 targets",
             note="every stored observation of the epoch whose (sensor position, target) is first-seen is returned with its sensor's measurement model attached, saved by the engine, and handed to the update job of exactly its target's estimate; exact duplicates are dropped")
 def obs(vc):
-    if not vc.symbolic:
-        for n in ("O-C19-obs.loaded", "O-C19-obs.saved", "O-C19-obs.reach-filter"):
-            vc.ensure(n, True)
-        return
     mk = lambda tag, sid, tid, pos: _NS(tag=tag, sensor_id=sid, target_id=tid, pos_x_km=pos[0], pos_y_km=pos[1], pos_z_km=pos[2], measurement=None,
                                         makeDictionary=lambda: _NS(sensor_id=sid, target_id=tid, julian_date=0))
     rows = [mk("a", 10, 1, (1.0, 2.0, 3.0)), mk("dup", 10, 1, (1.0, 2.0, 3.0)), mk("b", 11, 2, (4.0, 5.0, 6.0))]
     queries = []
-    vc.stub(CE + "@Query", lambda *a: _NS(join=lambda *b: _NS(filter=lambda *c: (queries.append(c), "QUERY")[1])))
-    vc.stub(CE + "@Epoch", _NS(timestampISO=_NS(__eq__=None)))
-    vc.stub(CE + "@ray", _NS(get=lambda h: h))
+    vc.install(CE + "@Query", lambda *a: _NS(join=lambda *b: _NS(filter=lambda *c: (queries.append(c), "QUERY")[1])))
+    vc.install(CE + "@Epoch", _NS(timestampISO=_NS(__eq__=None)))
+    vc.install(CE + "@ray", _NS(get=lambda h: h))
     sensors = {10: _NS(measurement="M10"), 11: _NS(measurement="M11")}
     when = _NS(isoformat=lambda timespec=None: "ISO-NOW")
     eng = vc.new(CE + "CentralizedTaskingEngine", _importer_db=_NS(getData=lambda q: list(rows)), _sensor_store=sensors, _observations=[], _saved_observations=[],
-                 _realtime_obs=False, target_list=[1, 2], sensor_list=[10, 11], _reward=_NS(metrics=[1]), logger=None)
+                 _realtime_obs=False, target_list=[1, 2], sensor_list=[10, 11], _reward=_NS(metrics=[1]), logger=SF.NullLogger())
     out = eng.loadImportedObservations(when)
     vc.ensure("O-C19-obs.loaded", [o.tag for o in out] == ["a", "b"] and out[0].measurement == "M10" and out[1].measurement == "M11")
     eng.assess("PRIOR", when)
